@@ -207,6 +207,10 @@ func (s *PfcpServer) receiver(wg *sync.WaitGroup) {
 		}
 
 		s.log.Tracef("receiver reads message(len=%d)", n)
+		if n == 0 {
+			// an empty packet on rcvCh means "receiver closed"; never forward one
+			continue
+		}
 		msgBuf := make([]byte, n)
 		copy(msgBuf, buf)
 		s.rcvCh <- ReceivePacket{
